@@ -138,6 +138,7 @@ def main() -> int:
         crashed = "driver crashed: " + traceback.format_exc()[-1500:]
     if crashed:
         ctx.mismatch("harness", "driver execution", crashed, "-", key="harness")
+        ctx.mismatches.insert(0, ctx.mismatches.pop())
 
     # 4. verdict
     findings = common.load_findings()
